@@ -1,7 +1,11 @@
 package sx
 
 import (
+	"context"
+	"strings"
 	"time"
+
+	"github.com/gotd/log"
 
 	"github.com/gotd/td/clock"
 	"github.com/gotd/td/internal/verif/shim/vsched"
@@ -53,3 +57,24 @@ func (f *Flag) IsSet() bool { return f.set }
 
 // Wait blocks until the flag is raised.
 func (f *Flag) Wait(what string) { vsched.Cond(what, func() bool { return f.set }) }
+
+// LogCapture is a gotd/log Logger that appends every record to the
+// observation log as "log[<thread>] <msg> k=v ...": the library's own debug
+// records serve as observation points for internal events.
+type LogCapture struct{ O *Obs }
+
+// Enabled implements log.Logger.
+func (LogCapture) Enabled(context.Context, log.Level) bool { return true }
+
+// Log implements log.Logger.
+func (l LogCapture) Log(_ context.Context, _ log.Level, msg string, attrs ...log.Attr) {
+	if vsched.Dying() {
+		return
+	}
+	var b strings.Builder
+	b.WriteString("log[" + vsched.CurName() + "] " + msg)
+	for _, a := range attrs {
+		b.WriteString(" " + a.Key + "=" + a.Value.String())
+	}
+	l.O.Events = append(l.O.Events, b.String())
+}
